@@ -186,3 +186,28 @@ def legacy_answers_of_core_v2_devices_never_become_descriptors(sc, dibs, extende
         assert ghost("parsed") == [] and len(sc.found_gateways) == 0
     else:
         assert ghost("parsed") == [list(dibs)] and len(sc.found_gateways) == 1
+
+
+# ------------------------------------------------------------------ "announces that service as secured": the announcement is octets
+# parse_dibs_sets_security_requirements takes parsed DIB objects. The parser owes that no announced family is lost
+# on the way from the datagram to the object - a secured-families DIB parsed with an entry missing makes the
+# gateway look unsecured.
+
+from xknx.exceptions import CouldNotParseKNXIP as _CouldNotParseKNXIP  # noqa: E402
+from pyvc.api import Bytes as _Bytes  # noqa: E402
+
+
+@lemma("C46", family=[dict(D=DIBSecuredServiceFamilies), dict(D=DIBSuppSVCFamilies)], params=dict(raw=_Bytes(max_len=14)))
+def a_parsed_service_family_dib_lists_every_announced_family(D, raw):
+    """DIBSecuredServiceFamilies / DIBSuppSVCFamilies.from_knx, any octets (up to 6 entries): refused (an unknown
+    family or type code raises ValueError, which KNXIPFrame.from_knx turns into CouldNotParseKNXIP - C20), or the
+    object lists exactly the announced entries, in order: entry i is family raw[2+2i] with version raw[3+2i]."""
+    dib = D()
+    try:
+        n = dib.from_knx(raw)
+    except (_CouldNotParseKNXIP, ValueError, IndexError):
+        return
+    assert n == raw[0] and n % 2 == 0 and 2 <= n <= len(raw)
+    assert len(dib.families) == (n - 2) // 2
+    for i in range((n - 2) // 2):
+        assert dib.families[i].name.value == raw[2 + 2 * i] and dib.families[i].version == raw[3 + 2 * i]
